@@ -363,10 +363,28 @@ def run_case(ctx, index):
                 # stays stored: a stored zero is not a non-zero count
                 t3 = biom.Table(D.copy(), list(spec.obs_ids),
                                 list(spec.samp_ids))
+                asked_first = r.random() < .6
+                if asked_first:
+                    # the counts were asked for before the cell went to zero
+                    if t3.nnz != np.count_nonzero(D):
+                        fail('nnz', '%r vs %r' % (t3.nnz,
+                                                  np.count_nonzero(D)))
+                    t3.get_table_density()
+                    repr(t3)
                 mat = t3.matrix_data
                 k = r.randrange(len(mat.data))
                 mat.data[k] = 0.0
                 D3 = np.asarray(mat.toarray(), dtype=float)
+                want = int(np.count_nonzero(D3))
+                if t3.nnz != want or not close(
+                        [t3.get_table_density()], [want / D3.size]) or \
+                        ('with %d nonzero entries' % want) not in repr(t3):
+                    fail('nnz-after-stored-zero', 'nnz %r, density %r, %r; '
+                         'the matrix has %d non-zero cells of %d (counts '
+                         'asked before: %r)' % (t3.nnz,
+                                                t3.get_table_density(),
+                                                repr(t3), want, D3.size,
+                                                asked_first))
                 for binary in (False, True):
                     per = (D3 != 0).sum(axis=0).astype(float) if binary \
                         else D3.sum(axis=0)
